@@ -153,8 +153,9 @@ Section FpField.
   Proof.
     pose proof p_gt1 as Hp.
     constructor; try (intros; reflexivity).
-    - cbn. apply Z.mod_0_l. lia.
-    - intros x. cbn. apply Z.mod_small. apply zp_inv_range. exact Hp.
+    all: intros; cbn [fp_val fp_of FpOps Zp f0 finv].
+    all: try (apply Z.mod_0_l; lia).
+    all: apply Z.mod_small; apply zp_inv_range; exact Hp.
   Qed.
 
   (* ---- the statement about what exists at run time ---------------------------------------------- *)
